@@ -854,6 +854,28 @@ func (g *schemaGenerator) generateAllOfType(allOf []*schemas.Type, scope nameSco
 		return nil, err
 	}
 
+	seen := make(map[*schemas.Type]bool, len(rAllOf))
+
+	for _, typ := range rAllOf {
+		if seen[typ] {
+			// The same definition listed twice is not a cycle.
+			continue
+		}
+
+		seen[typ] = true
+
+		isCycle, cleanupCycle, cycleErr := g.detectCycle(typ)
+		if cycleErr != nil {
+			return nil, cycleErr
+		}
+
+		defer cleanupCycle()
+
+		if isCycle {
+			return codegen.EmptyInterfaceType{}, nil
+		}
+	}
+
 	allOfType, err := schemas.AllOf(rAllOf)
 	if err != nil {
 		return nil, fmt.Errorf("could not merge allOf types: %w", err)
@@ -1226,12 +1248,14 @@ func (g *schemaGenerator) detectCycle(t *schemas.Type) (bool, func(), error) {
 		name:       defName,
 	}
 
-	_, isCycle := g.inScope[qual]
-	if !isCycle {
-		g.inScope[qual] = struct{}{}
+	if _, isCycle := g.inScope[qual]; isCycle {
+		// The entry belongs to an enclosing call; leave it for that call to clean up.
+		return true, func() {}, nil
 	}
 
-	return isCycle, func() {
+	g.inScope[qual] = struct{}{}
+
+	return false, func() {
 		delete(g.inScope, qual)
 	}, nil
 }
